@@ -2,6 +2,8 @@
 from vlib import fin, zero, inf, B, ndigits
 import pyspec
 from . import C01, common
+import os, random, itertools
+import vlib
 
 ID = "C08"
 LEVEL = "proof"
@@ -50,10 +52,58 @@ def gen(rng, tier):
         yield dict(family="decode-then-use", vars=[z, x], ops=["GobDecode 0 %s" % bytes(enc).hex(), "Mul 1 0 0", "Quo 1 1 0", "SetPrec 0 3", "Neg 1 0", "Cmp 0 1"])
 
 
+def build(log):
+    # the Sqrt / binary-float operations live in a second driver (harness/fdriver, see C05/C15)
+    from . import fcommon
+    return fcommon.build(log)
+
+
+def float_side(fails):
+    """SetFloat64 / SetFloat / Sqrt are not operations of the main store driver: their receivers are checked
+    against the canonical-form predicate through the float driver (the model/code diff of these is C05/C15)."""
+    from . import C05, C15
+    rng = random.Random(int(os.environ.get("VERIF_SEED", "20261001")) + 8)
+    tier = os.environ.get("VERIF_TIER", "quick")
+    fc = [c for c in C15.gen(rng, "quick") if c["family"].startswith(("f64", "setfloat"))][:1500 if tier == "quick" else 6000]
+    fc += list(itertools.islice(C05.gen(rng, "quick"), 400 if tier == "quick" else 2000))
+    for i, c in enumerate(fc):
+        c["pid"] = "f%d" % i
+        c["line"] = " ; ".join([v.item() for v in c["vars"]] + ["O " + o for o in c["ops"]])
+    text = "\n".join("%s ; %s" % (c["pid"], c["line"]) for c in fc) + "\n"
+    rc, out, dt = vlib.run_side(os.path.join(vlib.BUILD, "fdriver"), text, timeout=600)
+    JUDGE_STATS["float_driver_cases"] = len(fc)
+    JUDGE_STATS["float_wf_checked"] = 0
+    byid = {c["pid"]: c for c in fc}
+    if rc != 0:
+        fails.append((fc[0], "float driver exited with status %d" % rc, dict(implementation=out[-1500:])))
+        return
+    seen = set()
+    for line in out.splitlines():
+        try:
+            key, opn, outcome, res, vs = vlib.parse_obs(line)
+        except Exception:
+            continue
+        c = byid.get(key[0])
+        if c is None or key[0] in seen:
+            continue
+        msg = "panic other than ErrNaN" if outcome == "crash" else None
+        for v in vs:
+            JUDGE_STATS["float_wf_checked"] += 1
+            w = pyspec.wf(v)
+            if w:
+                msg = "malformed Decimal: " + w
+        if msg:
+            seen.add(key[0])
+            fails.append((c, "canonical-form invariant violated at step %d (%s; float driver build/fdriver): %s" % (key[1], opn, msg),
+                          dict(implementation=line[:1500], step=key[1], driver="fdriver")))
+
+
 def judge(cases, g, m):
     fails = []
     JUDGE_STATS["wf_checked"] = 0
     JUDGE_STATS["equal_pairs_checked"] = 0
+    if not any(c.get("family") == "replay" for c in cases):
+        float_side(fails)
     for c in cases:
         if "vars" not in c:
             continue
